@@ -62,7 +62,7 @@ ASSUMPTIONS = [
     "rails have the shape `$v = execute action; if blocked: bot refuse to respond / create event XException; stop; if rewrite: $text = …`; one utterance per turn",
     "timestamps / durations of the generation log are not modelled",
     "LLM completions are post-processed by the generation actions (strip, first line, quotes): texts that look like syntax are used as LLM answers only in `general` mode and only where the completion is returned as it is",
-    "turns stay below the runtime's safety cap of 100 new events (a handful of thorough cases with 3+2+2 rails and a two-call dialog exceed it: generate raises 'Too many events.'; skipped and counted as event-cap-hit)",
+    "turns stay below the runtime's safety cap of 100 new events (a handful of thorough cases with 3+2+2 rails and a two-call dialog exceed it: the valve ends the turn with the internal-error message since /repo e77d9e1 (before: generate raised 'Too many events.'); recognised by the runtime's warning, skipped and counted as event-cap-hit)",
 ]
 EXHAUSTIVE = {"quick": False, "thorough": True}
 
@@ -503,7 +503,44 @@ def run_impl(case):
     return obs
 
 
+class _CapWatch:
+    """Since /repo e77d9e1 the 100-new-events safety valve of `RuntimeV1_0.generate_events` ends the turn with the internal-error
+    events and logs a warning instead of raising 'Too many events.': the valve is observed through that warning."""
+
+    def __init__(self):
+        import logging
+
+        self.hit = False
+        outer = self
+
+        class H(logging.Handler):
+            def emit(self, record):
+                try:
+                    if "Too many events" in record.getMessage():
+                        outer.hit = True
+                except Exception:  # noqa
+                    pass
+
+        self.h = H(level=logging.WARNING)
+        self.lg = logging.getLogger("nemoguardrails.colang.v1_0.runtime.runtime")
+
+    def __enter__(self):
+        self.lg.addHandler(self.h)
+        return self
+
+    def __exit__(self, *a):
+        self.lg.removeHandler(self.h)
+
+
 def _run_impl(case):
+    with _CapWatch() as w:
+        obs = _run_impl0(case)
+    if w.hit and isinstance(obs, dict):
+        obs["event_cap_hit"] = True
+    return obs
+
+
+def _run_impl0(case):
     if case["kind"] == "interp":
         return ci.run(case)
     if case["kind"] == "log":
@@ -667,7 +704,7 @@ def chain(rails, text):
 
 def capped(obs):
     """`RuntimeV1_0.generate_events` raises after more than 100 new events (configurations with many rails)."""
-    return obs.get("exc", "").startswith("Exception: Too many events")
+    return obs.get("exc", "").startswith("Exception: Too many events") or bool(obs.get("event_cap_hit"))
 
 
 def well_shaped(alog):
